@@ -565,6 +565,77 @@ fn long_run_case(rng: &mut Rng) -> Case {
     Case { n, edges, drop_edges: vec![], removed: vec![], init, roots, aborts: vec![], label: "long-run two-bus".into() }
 }
 
+/// DEGENERATE SHAPES: nodes that own NO buffers at all (a control / trigger node, a device sink). They cannot be told
+/// apart by buffer address, so this family has its own instrumented node: every invocation logs, per input, how many
+/// buffers it carries and (when it carries any) whose they are. Oracle from the property text: every node upstream of
+/// the output node is invoked exactly once, after its inputs when the upstream part is acyclic, and receives exactly
+/// one input per incoming edge from a different node — bufferless inputs included.
+struct Bl { id: usize, log: Rc<RefCell<Vec<(usize, Vec<(usize, Option<usize>)>)>>>, addr: Rc<RefCell<HashMap<usize, usize>>> }
+impl Node for Bl {
+    fn process(&mut self, inputs: &[Input], _output: &mut [Buffer]) {
+        let addr = self.addr.borrow();
+        let ins = inputs.iter().map(|i| { let b = i.buffers(); (b.len(), if b.is_empty() { None } else { addr.get(&(b.as_ptr() as usize)).copied() }) }).collect();
+        self.log.borrow_mut().push((self.id, ins));
+    }
+}
+fn bufferless_cases(st: &mut Stream, rng: &mut Rng, reps: usize) {
+    for rep in 0..reps {
+        let n = 2 + rng.usize_below(5);
+        let nbuf: Vec<usize> = (0..n).map(|i| if i == rep % n { 0 } else { *rng.pick(&[0usize, 0, 1, 2]) }).collect();
+        let mut edges: Vec<(usize, usize)> = Vec::new();
+        for _ in 0..rng.usize_below(2 * n + 2) {
+            let (a, b) = (rng.usize_below(n), rng.usize_below(n));
+            if a < b || (a == b && rng.chance(1, 3)) { edges.push((a, b)); }     // forward edges (parallel ones included) and some self-loops
+        }
+        let root = n - 1 - rng.usize_below(2.min(n - 1));
+        let stable = rep % 2 == 1;
+        let log = Rc::new(RefCell::new(Vec::new()));
+        let addr = Rc::new(RefCell::new(HashMap::new()));
+        let case = format!("{} n={} buffers per node={:?} edges={:?} output node {}", if stable { "stable" } else { "graph" }, n, nbuf, edges, root);
+        mark(0, &case);
+        let mk = |i: usize| NodeData::new(Bl { id: i, log: log.clone(), addr: addr.clone() }, vec![Buffer::SILENT; nbuf[i]]);
+        let mut runs: Vec<Vec<(usize, Vec<(usize, Option<usize>)>)>> = Vec::new();
+        let ok = guarded(|| {
+            if stable {
+                let mut g = StableGraph::<NodeData<Bl>, ()>::with_capacity(0, 0);
+                for i in 0..n { g.add_node(mk(i)); }
+                for &(a, b) in &edges { g.add_edge(NodeIndex::new(a), NodeIndex::new(b), ()); }
+                for i in 0..n { if nbuf[i] > 0 { addr.borrow_mut().insert(g[NodeIndex::new(i)].buffers.as_ptr() as usize, i); } }
+                let mut p = Processor::with_capacity(n);
+                for _ in 0..2 { log.borrow_mut().clear(); p.process(&mut g, NodeIndex::new(root)); runs.push(log.borrow().clone()); }
+            } else {
+                let mut g = Graph::<NodeData<Bl>, ()>::with_capacity(0, 0);
+                for i in 0..n { g.add_node(mk(i)); }
+                for &(a, b) in &edges { g.add_edge(NodeIndex::new(a), NodeIndex::new(b), ()); }
+                for i in 0..n { if nbuf[i] > 0 { addr.borrow_mut().insert(g[NodeIndex::new(i)].buffers.as_ptr() as usize, i); } }
+                let mut p = Processor::with_capacity(n);
+                for _ in 0..2 { log.borrow_mut().clear(); p.process(&mut g, NodeIndex::new(root)); runs.push(log.borrow().clone()); }
+            }
+        }).is_some();
+        st.count("bufferless_node_cases");
+        if !ok { st.oracle_fail("process panicked on a graph with bufferless nodes", &case, "no panic", "panic"); continue; }
+        let up = upstream(n, &edges, root);
+        for (call, run) in runs.iter().enumerate() {
+            let mut seen = vec![0usize; n];
+            let mut bad: Option<String> = None;
+            for (pos, (id, ins)) in run.iter().enumerate() {
+                seen[*id] += 1;
+                let mut want_ids: Vec<usize> = edges.iter().filter(|e| e.1 == *id && e.0 != *id && nbuf[e.0] > 0).map(|e| e.0).collect(); want_ids.sort();
+                let want_empty = edges.iter().filter(|e| e.1 == *id && e.0 != *id && nbuf[e.0] == 0).count();
+                let mut got_ids: Vec<usize> = ins.iter().filter_map(|(k, who)| if *k > 0 { Some(who.unwrap_or(usize::MAX)) } else { None }).collect(); got_ids.sort();
+                let got_empty = ins.iter().filter(|(k, _)| *k == 0).count();
+                if got_ids != want_ids || got_empty != want_empty || ins.iter().any(|(k, who)| who.map_or(false, |w| nbuf[w] != *k)) {
+                    bad = Some(format!("call {}: node {} got inputs from {:?} plus {} bufferless, expected from {:?} plus {} bufferless", call, id, got_ids, got_empty, want_ids, want_empty)); break;
+                }
+                // acyclic by construction apart from self-loops: every input's node was invoked earlier in this call
+                for e in edges.iter().filter(|e| e.1 == *id && e.0 != *id) { if !run[..pos].iter().any(|r| r.0 == e.0) { bad = Some(format!("call {}: node {} invoked before its input node {}", call, id, e.0)); } }
+            }
+            for i in 0..n { if seen[i] != up[i] as usize && bad.is_none() { bad = Some(format!("call {}: node {} invoked {} time(s), expected {}", call, i, seen[i], up[i] as usize)); } }
+            match bad { None => st.oracle_ok(run.len() as u64 + 1), Some(b) => st.oracle_fail("graph with bufferless nodes: invocation set / order / inputs differ from the property's rule", &case, "", &b) }
+        }
+    }
+}
+
 fn run(a: &Args) {
     let mut st = Stream::new(&a.out, "proc");
     let mut rng = Rng::new(a.seed, "proc");
@@ -584,6 +655,7 @@ fn run(a: &Args) {
         let nn = 40 + rng.usize_below(50);
         let c = big_dense_case(&mut rng, "dense-cyclic", nn, "shuffle"); run_case(&mut st, &mut ps, &c);
     }
+    bufferless_cases(&mut st, &mut rng, if a.thorough() { 4000 } else { 600 });
     {
         let c = long_run_case(&mut rng);
         let mut fresh: Processor<Graph<NodeData<Instr>, ()>> = Processor::with_capacity(c.n);
